@@ -505,11 +505,13 @@ _bf2_lines = st.sampled_from(["#> REBOOT", "#> REBOOT", "#> CHECK_FWVER VERSIOND
                               ":000035", ":0000FF00", ":0000FE00", ":00003503020000", ":000035FF0000", ":00007000", ":00008400", ":0000840100", ":000033020000"])
 
 
-_INSTR_NAMES = ["REBOOT", "CRC", "SELECT", "CHECK_FWVER", "SELECT_IF", "Firmware", "Creator", "Bf3Update", "X"]
+_INSTR_NAMES = ["REBOOT", "CRC", "SELECT", "CHECK_FWVER", "SELECT_IF", "Firmware", "Creator", "Bf3Update", "X", "load", "LOAD"]
 _INSTR_VALUES = ["", "x", "*", "0x12345678", "0x123456789", "0x", "-1", "1100 0123456789 1.02.03", "-123 0123456789 1.02.03", "99999 0123456789 1.02.03", "1100 0123456789 1.02.999",
                  "1100 0123456789 D-12345", "FILTER=01 01 00 B6", "FILTER=01 02 00 B6", "FILTER=", "FILTER=zz", "PROTOCOL=BRP", "PROTOCOL=*", "PROTOCOL=FOO", "VERSIONDESC=*", "VERSIONDESC=000003414243",
                  "VERSIONDESC=0000", "VERSIONDESC=", "A=1,B=2", "A=1=2", ",", "=", "a:b"]
-_bf2_instr_line = st.builds(lambda pre, name, sep, val: pre + name + sep + val, st.sampled_from(["#> ", "#>", "##", "## "]), st.sampled_from(_INSTR_NAMES), st.sampled_from([" ", ": ", ":", ""]),
+_bf2_instr_line = st.builds(lambda pre, name, sep, val: pre + name + sep + val, st.sampled_from(["#> ", "#>", "##", "## "]),
+                            st.one_of(st.sampled_from(_INSTR_NAMES), st.text(st.sampled_from("abcdefghijklmnopqrstuvwxyzABCDEFGHIJKLMNOPQRSTUVWXYZ_0123456789"), min_size=1, max_size=8)),
+                            st.sampled_from([" ", ": ", ":", ""]),
                             st.sampled_from(_INSTR_VALUES))
 _bf2_lines = st.one_of(_bf2_lines, _bf2_instr_line)
 
